@@ -80,7 +80,7 @@ func genList(rng *rand.Rand, n int, prefix, att, side, mode string, k *int64) []
 		*k++
 		s := &mwSpec{ID: fmt.Sprintf("%s%d", prefix, i), Att: att, Side: side, RW: rwObserve, K: *k}
 		if mode == "rewriting" {
-			switch r := rng.Intn(22); {
+			switch r := rng.Intn(25); {
 			case r < 5:
 				s.RW = rwObserve
 			case r < 11:
@@ -91,6 +91,8 @@ func genList(rng *rand.Rand, n int, prefix, att, side, mode string, k *int64) []
 				s.RW = rwAnnotate
 			case r < 21:
 				s.RW = rwInject
+			case r < 24:
+				s.RW = rwCtx
 			default:
 				s.RW = rwClear
 			}
